@@ -12,7 +12,14 @@ TraceInit == l = 1 /\ req = [b |-> "unix", r |-> [kind |-> "anon", size |-> 1, f
 TraceNext ==
     /\ l <= Len(Rec)
     /\ LET e == Rec[l] IN
-       IF e.op = "build"
+       IF e.op = "wrap"
+       THEN LET d == WrapDecision(e.a.size, e.a.gbase) IN
+            /\ Judge(d = "any" \/ e.r.k = d, "decision", [expected |-> d])
+            /\ Judge((d = "ok" /\ e.r.k = "ok") => (e.r.start = e.a.gbase /\ e.r.len = e.a.size /\ e.r.last = e.a.gbase + e.a.size - 1
+                                                    /\ e.r.mapped >= e.a.size),
+                     "attributes", [expected |-> d])
+            /\ Judge(e.r.k = "err" => e.r.left_mapped = 0, "left_behind", [expected |-> d])
+       ELSE IF e.op = "build"
        THEN LET x == UnixBuild(UReq(e.a)) IN
             /\ Judge(e.r.k = x.k /\ (x.k = "err" => e.r.e = x.e), "decision", [expected |-> x])
             \* an accepted request builds what was asked
